@@ -7,6 +7,16 @@ HERE = os.path.dirname(os.path.abspath(__file__))
 
 # property -> (technique, level text, level note, design ref)
 CLAIMED = {
+    'C03': ('registry agreement / exhaustiveness of the four handler tables against FIELDS and the stdlib grammar; shape check '
+            'of generated accessors; entry-point funnel + options forwarding + sibling agreement; flow-sensitive '
+            'interprocedural raw-index typestate (RAW > range-checked > clean) over per-function CFGs',
+            'Static, exhaustive over all (class, field) rows and all handler functions: decides that every grammar position '
+            'has put/get handlers of the right kind, that all equivalent entry points funnel into the same kernel call with '
+            'the same field / one / options, and that no handler uses start/stop/idx before normalising it. Necessary '
+            'structural conditions; that a handler really yields old[:start]+new+old[stop:] is not decided.',
+            'Trusts the repo naming conventions (start/stop/idx parameters, `validated` certificate parameter) and the '
+            'frozen documented exception lists (not-implemented fields, component fields of combined virtual fields).',
+            'DESIGN.md §2 C03'),
     'C14': ('sibling-table agreement (FIELDS / syntax-order lambdas / generated next+prev automata) by abstract '
             'interpretation of the generated functions; mirrored push-program comparison; polarity typestate in walk()',
             'Static, exhaustive over all 124 AST classes: decides that the four artefacts that encode child order agree '
@@ -27,7 +37,7 @@ NOT_APPLICABLE = {
            'conservation is value-level. Its two structural clauses are checked as R5.1 and R7.3.',
 }
 
-PLANNED = ['C01', 'C02', 'C03', 'C04', 'C05', 'C06', 'C07', 'C09', 'C10', 'C11', 'C12', 'C15', 'C16', 'C17', 'C18', 'C20']
+PLANNED = ['C01', 'C02', 'C04', 'C05', 'C06', 'C07', 'C09', 'C10', 'C11', 'C12', 'C15', 'C16', 'C17', 'C18', 'C20']
 
 
 def main():
